@@ -64,7 +64,7 @@ def make_entries(fmt, n, lens, rng):
         if fmt in ("k1", "bed"):
             out.append(f"c{num}\t{num}\t{int(num) + 5}\n")
         elif fmt == "bed6":
-            out.append(f"c{num}\t{num}\t{int(num) + 5}\tn{'x' * l}\t{i}\t{'+-'[i % 2]}\n")
+            out.append(f"c{num}\t{num}\t{int(num) + 5}\tn{'x' * l}\t{'.' if i % 3 == 0 else i}\t{'+-'[i % 2]}\n")
         elif fmt == "bdg":
             out.append(f"c{num}\t{num}\t{int(num) + 5}\t{i}.5\n")
         elif fmt == "narrowPeak":
